@@ -127,7 +127,9 @@ func (c *TreeCacheClientImpl) GetBranchesHighesPrecedence(ctx context.Context, p
 
 	// TODO: Improve this, since it is probably an expensive operation
 	for key, entries := range c.intendedStoreIndex {
-		if strings.HasPrefix(key, pathKey) {
+		// the branch consists of the path itself and everything below it. A sibling that
+		// merely starts with the same characters (ethernet-1/1 vs. ethernet-1/10) is not part of it.
+		if key == pathKey || strings.HasPrefix(key, pathKey+KeysIndexSep) {
 			if prio := entries.GetLowestPriorityValue(filters); prio < result {
 				result = prio
 			}
